@@ -46,7 +46,7 @@ def diff(a: dict, b: dict):
     return changed, created, removed
 
 
-def build(d: Path) -> Path:
+def build(d: Path, toml_link: bool = False) -> Path:
     root = d / "root"
     sent = d / "sentinel"
     (sent / "dir").mkdir(parents=True)
@@ -62,6 +62,11 @@ def build(d: Path) -> Path:
     (root / "src" / "c.py").write_text("c = 1\n")
     (sent / "sibling_target.txt").write_text("SPDX-FileCopyrightText: 2001 Outside Owner\n")
     os.symlink("../../sentinel/sibling_target.txt", root / "src" / "c.py.license")
+    # ... and siblings / licence texts that are DANGLING links: writing through them would create files outside
+    (root / "bin2.dat").write_bytes(b"\x00\x01\x02BIN2\xff\xfe" * 4)
+    os.symlink("../sentinel/created_through_dangling_sibling.txt", root / "bin2.dat.license")
+    (root / "data.unknownext").write_text("no comment style for this one\n")
+    os.symlink("../sentinel/created_through_dangling_fallback.txt", root / "data.unknownext.license")
     (root / "bin.dat").write_bytes(b"\x00\x01\x02BIN\xff\xfe" * 4)
     os.symlink("../sentinel/target.py", root / "link.py")
     os.symlink("../sentinel/dir", root / "linkdir")
@@ -69,6 +74,7 @@ def build(d: Path) -> Path:
     (root / ".gitignore").write_text("*.log\n")
     (root / "LICENSES" / "MIT.txt").write_text("MIT text\n")
     (root / "LICENSES" / "LicenseRef-custom.txt").write_text("the custom licence, as it was\n")
+    os.symlink("../../sentinel/created_through_dangling_licence.txt", root / "LICENSES" / "ISC.txt")
     (root / "src-legacy").mkdir()
     (root / "src-legacy" / "old.py").write_text("old = 1\n")
     (root / "srcgen.py").write_text("gen = 1\n")
@@ -86,6 +92,9 @@ def build(d: Path) -> Path:
     (root / "docs" / "readme.md").write_text("# readme\n")
     (root / "ro.txt").write_text("read only\n")
     os.chmod(root / "ro.txt", 0o444)
+    if toml_link:           # a REUSE.toml that is a symbolic link is not configuration - and not to be written through
+        (sent / "precious.txt").write_text("outside content that convert-dep5 must leave alone\n")
+        os.symlink("../sentinel/precious.txt", root / "REUSE.toml")
     env = dict(os.environ, GIT_CONFIG_GLOBAL="/dev/null", GIT_CONFIG_SYSTEM="/dev/null", HOME=str(d))
     subprocess.run(["git", "init", "-q"], cwd=root, env=env, check=True, capture_output=True)
     subprocess.run(["git", "add", "-A"], cwd=root, env=env, check=True, capture_output=True)
@@ -130,7 +139,7 @@ def run_case(case: dict) -> list:
     real = urllib.request.urlopen
     events = []
     try:
-        root = build(d)
+        root = build(d, toml_link=bool(case.get("toml_link")))
 
         def fake(url, *a, **k):
             u = url if isinstance(url, str) else url.full_url
@@ -189,6 +198,10 @@ def run(ctx: core.Ctx) -> int:
         h3 = [g["hist"] for g in g3 if len(g["hist"]) == 3]
         hists += rnd.sample(h3, min(1500, len(h3)))
     cases = [{"tid": i + 1, "hist": h, "label": json.dumps([[c["kind"], c["targets"]] for c in h])} for i, h in enumerate(hists)]
+    # the histories with a conversion, once more on a tree whose REUSE.toml is a symbolic link leaving the project
+    for h in [h for h in hists if any(c["kind"] == "convert-dep5" for c in h)][: 12 if q else 200]:
+        cases.append({"tid": len(cases) + 1, "hist": h, "toml_link": True,
+                      "label": json.dumps(["REUSE.toml is a symlink", [[c["kind"], c["targets"]] for c in h]])})
     evl = ctx.pmap(run_case, cases, chunksize=4, daemon=False)
     events = [e for es in evl for e in es]
     for ev in [e for e in events if e["cmd"]["kind"].startswith("annotate")][:3] + events[:1]:
